@@ -3,7 +3,7 @@ import PGM.Proofs.BPFactor
 /-!
 # Refinement: the `foldl` of `bpLoop` maintains "belief = potential × true messages received"
 -/
-namespace PGM.Sem
+namespace PGM.Sem.BP
 open PGM PGM.JT PGM.GM
 set_option linter.unusedSectionVars false
 set_option linter.unusedVariables false
@@ -516,4 +516,4 @@ theorem final_belief {d : Dom} {t : Tree} {order : List (Clique × Clique)}
   rw [this]
   rfl
 
-end PGM.Sem
+end PGM.Sem.BP
